@@ -266,3 +266,6 @@ def spec(tensor, constraints, strict):
         any(isinstance(n.ast, ast.Return) and isinstance(n.ast.value, ast.Constant) and n.ast.value.value is True for n in g.nodes if n.kind == "stmt")
     ctx.ob("C13.e", "_constraints_consistent: False exactly when two constraints name the same physical dim with different sizes", ok, f"{gs}", cs.where)
     ctx.assume("slicing, torch.cat and roll implement their documented semantics")
+    # ---------------- (f) the padding / emptying helpers
+    from .. import helper_specs
+    helper_specs.check(ctx, "C13.f", ["zeros", "full", "empty"])
